@@ -111,6 +111,7 @@ def q2_typecheck(f):
             if (
                 param.annotation in [list, str, int, float]
                 and param.default == param.empty
+                and i < len(args)  # too few arguments: let the call itself fail
             ):
                 _verify_variable_is_type(args[i], param.annotation)
 
